@@ -5,7 +5,7 @@ use crate::model::*;
 use prefix_trie::*;
 use serde_json::{json, Value};
 
-const LIM: usize = 100_000;
+const LIM: usize = 4096;
 type ValFn<'f, T> = &'f dyn Fn(&T) -> i32;
 
 fn items<'a, P: PT + 'a, T: 'a>(ctx: &Ctx, it: impl Iterator<Item = (&'a P, &'a T)>, val: ValFn<T>) -> Value {
@@ -30,9 +30,27 @@ pub fn short<P: PT, T>(ctx: &Ctx, v: &TrieView<'_, P, T>, val: ValFn<T>) -> Valu
     d
 }
 
+thread_local! { static BUDGET: std::cell::Cell<usize> = std::cell::Cell::new(0); }
+fn spend() -> bool {
+    BUDGET.with(|b| {
+        if b.get() == 0 {
+            false
+        } else {
+            b.set(b.get() - 1);
+            true
+        }
+    })
+}
+pub fn reset_budget() {
+    BUDGET.with(|b| b.set(2048));
+}
+
 pub fn desc<P: PT, T>(ctx: &Ctx, v: &TrieView<'_, P, T>, val: ValFn<T>, depth: u32) -> Value {
+    if depth == 0 {
+        reset_budget();
+    }
     let mut d = short(ctx, v, val);
-    if depth > 300 {
+    if depth > ctx.tw + 2 || !spend() {
         d["l"] = json!(["DEPTH"]);
         return d;
     }
@@ -71,8 +89,11 @@ pub fn short_mut<P: PT, T>(ctx: &Ctx, v: &mut TrieViewMut<'_, P, T>, val: ValFn<
 }
 
 pub fn desc_mut<P: PT, T>(ctx: &Ctx, mut v: TrieViewMut<'_, P, T>, val: ValFn<T>, depth: u32) -> Value {
+    if depth == 0 {
+        reset_budget();
+    }
     let mut d = short_mut(ctx, &mut v, val);
-    if depth > 300 {
+    if depth > ctx.tw + 2 || !spend() {
         d["l"] = json!(["DEPTH"]);
         return d;
     }
